@@ -68,7 +68,7 @@ def classify(kind, case):
     why = {2: "status-or-reason-phrase-changed", 3: "end-to-end-field-missing-or-changed", 4: "hop-by-hop-field-reaches-client",
            5: "body-differs", 6: "declared-trailers-differ",
            7: "connection-kept-after-aborted-response", 8: "connection-closed-without-cause",
-           9: "response-header-rule-not-applied"}.get(case.get("why"))
+           9: "response-header-rule-not-applied", 10: "request-the-client-never-sent-reached-an-origin"}.get(case.get("why"))
     if why:
         return pre + why
     if kind == "xcases" and case.get("only304ct"):
